@@ -7,8 +7,12 @@ use ldk_verif_harness::common::*;
 use ldk_verif_harness::sim::*;
 use std::collections::BTreeMap;
 
-fn scenario(rng: &mut Rng, steps: usize, async_persist: bool) -> Net {
-	let mut net = Net::new(2, vec![None, None]);
+fn scenario(rng: &mut Rng, steps: usize, async_persist: bool) -> (Net, Vec<String>) {
+	let mut viol: Vec<String> = vec![];
+	let mut at_limit: Vec<(usize, &'static str, u64)> = vec![];
+	let mut user_failed: Vec<usize> = vec![];
+	let cfg = if rng.chance(1, 2) { Some(lightning::ln::functional_test_utils::test_legacy_channel_config()) } else { None };
+	let mut net = Net::new(2, vec![cfg.clone(), cfg]);
 	let value = *rng.pick(&[100_000u64, 1_000_000, 5_000_000]);
 	let push = rng.below(value * 1000 / 2);
 	let c = net.open(0, 1, value, push);
@@ -21,8 +25,28 @@ fn scenario(rng: &mut Rng, steps: usize, async_persist: bool) -> Net {
 				let lim = net.nodes[a].node.list_channels()[0].next_outbound_htlc_limit_msat;
 				let min = net.nodes[a].node.list_channels()[0].next_outbound_htlc_minimum_msat;
 				if lim >= min && lim > 0 {
-					let amt = match rng.below(5) { 0 => min, 1 => lim, 2 => 354_000 + rng.below(2000), _ => min + rng.below(lim - min + 1) }.clamp(min, lim);
-					let _ = net.send(&[a, b], &[c], amt, 70 + rng.below(40) as u32);
+					let sel = rng.below(6);
+					if sel == 5 {
+						// outside the reported limits: must be refused locally and leave the channel untouched
+						let amt = if rng.chance(1, 2) || min <= 1 { lim + 1 } else { min - 1 };
+						net.pump_all(); net.process_events(a); net.pump_all(); // flush unrelated pending effects first
+						let before = (net.channel_dump(a), net.channel_dump(b));
+						let r = net.send(&[a, b], &[c], amt, 80);
+						net.process_events(a);
+						let refused = r.is_err() || locally_failed(&net, a, r.as_ref().ok().copied());
+						let after = (net.channel_dump(a), net.channel_dump(b));
+						if !refused { viol.push(format!("send of {} msat outside [min {}, limit {}] was accepted locally", amt, min, lim)); }
+						else if before != after { viol.push(format!("refused send of {} msat (limits [{}, {}]) changed the channel", amt, min, lim)); }
+					} else {
+						let amt = match sel { 0 => min, 1 => lim, 2 => 354_000 + rng.below(2000), _ => min + rng.below(lim - min + 1) }.clamp(min, lim);
+						let r = net.send(&[a, b], &[c], amt, 70 + rng.below(40) as u32);
+						net.process_events(a);
+						match r {
+							Ok(p) if !locally_failed(&net, a, Some(p)) => { if amt == lim { at_limit.push((p, "limit", amt)); } else if amt == min { at_limit.push((p, "minimum", amt)); } },
+							Ok(_) => viol.push(format!("send of {} msat inside the reported limits [{}, {}] was refused locally (path failed at once)", amt, min, lim)),
+							Err(e) => viol.push(format!("send of {} msat inside the reported limits [{}, {}] was refused locally: {}", amt, min, lim, e)),
+						}
+					}
 				}
 			},
 			3 | 4 | 5 | 6 | 7 | 8 => { let q: Vec<(usize, usize)> = net.q.iter().filter(|(_, v)| !v.is_empty()).map(|(k, _)| *k).collect(); if !q.is_empty() { let (i, j) = *rng.pick(&q); net.deliver(i, j); } },
@@ -34,7 +58,7 @@ fn scenario(rng: &mut Rng, steps: usize, async_persist: bool) -> Net {
 					let p = *rng.pick(&cands);
 					let to = net.pays[p].to; let h = net.pays[p].hash;
 					net.claimable[to].retain(|c| c.0 != h);
-					if rng.chance(2, 3) { net.claim(p); } else { net.fail_back(p); }
+					if rng.chance(2, 3) { net.claim(p); } else { user_failed.push(p); net.fail_back(p); }
 				}
 			},
 			13 => { if async_persist { let i = rng.below(2) as usize; if !net.in_progress[i] { net.set_mode(i, true); } } },
@@ -51,7 +75,22 @@ fn scenario(rng: &mut Rng, steps: usize, async_persist: bool) -> Net {
 		if net.any_queued().is_none() && (0..2).all(|i| net.pending_updates(i, c).is_empty()) { net.settle(4); if net.any_queued().is_none() { break; } }
 	}
 	net.sample_balances(c);
-	net
+	// the reported limits are exact: an HTLC sent exactly at the limit / minimum is accepted by the peer
+	// (it ends up claimable there and, since the drain claims everything claimable, PaymentSent at the sender)
+	for (p, what, amt) in at_limit {
+		if user_failed.contains(&p) { continue; }
+		let h = net.pays[p].hash; let from = net.pays[p].from;
+		let sent = net.events[from].iter().any(|e| matches!(e, lightning::events::Event::PaymentSent { payment_hash, .. } if *payment_hash == h));
+		if !sent { viol.push(format!("HTLC of {} msat sent exactly at the reported {} was not accepted by the peer (no PaymentSent after the drain)", amt, what)); }
+	}
+	(net, viol)
+}
+
+/// did the sender report the path of payment p as failed without ever putting an HTLC on the wire?
+fn locally_failed(net: &Net, a: usize, p: Option<usize>) -> bool {
+	let p = match p { Some(p) => p, None => return true };
+	let h = net.pays[p].hash;
+	net.events[a].iter().any(|e| match e { lightning::events::Event::PaymentPathFailed { payment_hash, .. } => *payment_hash == h, lightning::events::Event::PaymentFailed { payment_hash: Some(ph), .. } => *ph == h, _ => false })
 }
 
 fn nm(i: usize) -> &'static str { if i == 0 { "a" } else { "b" } }
@@ -68,7 +107,7 @@ fn main() {
 		let async_persist = sc % 2 == 1;
 		let mut sub = Rng::new(rng.next());
 		let net = match guarded(std::panic::AssertUnwindSafe(|| scenario(&mut sub, steps, async_persist))) {
-			Ok(n) => n,
+			Ok((n, viol)) => { for v in viol { rec.oracle_fail(format!("scenario {}: {}", sc, v)); } n },
 			Err(p) => { rec.oracle_fail(format!("scenario {} (seed {}, async={}) panicked: {}", sc, args.seed, async_persist, p.chars().take(200).collect::<String>())); continue; },
 		};
 		if std::env::var("VERIF_TRACE").is_ok() { eprintln!("=== scenario {}", sc); for o in &net.trace { if !matches!(o, Obs::Balance { .. }) { eprintln!("  {}", fmt_obs(o)); } } }
